@@ -26,6 +26,8 @@ import (
 // Case lines (fields separated by single spaces, byte strings in hex, "-" = empty):
 //
 //	C19.tree <lvl> <attrs> <recs> <script> <oracle>
+//	    lvl     <int>    the root is made with the constant slog.Level in HandlerOptions.Level
+//	            v<int>   the root is made with a *slog.LevelVar holding that value in HandlerOptions.Level
 //	    attrs   a0,a1,…          ai = <kind>:<keyhex>:<val>   (the id of an attribute is its index)
 //	            kinds: s string(valhex)  i int64(dec)  u uint64(dec)  f float64(dec)  b bool(0|1)
 //	                   d duration(ns dec)  y any []byte(valhex)  r any error(valhex text)  n any nil
@@ -35,9 +37,11 @@ import (
 //	    script  op,op,…          W<parent>:<ids|->   derive node (ids are 1,2,… in order of creation)
 //	                             H<node>:<rid>       Handle(recs[rid]) on that node (the same Record value)
 //	                             E<node>:<level>     Enabled
+//	                             L<level>            levelVar.Set(level) on the case's *slog.LevelVar (on a
+//	                                                 constant-level case the variable is not used by any handler)
 //	    oracle  <rid>;<ids|->=<hexline>,…   what slog.TextHandler prints for record rid whose final
 //	            attribute list is ids ("z" = zero Attr, "!" = the !BUG attr) — the model's `text` parameter
-//	  answer: per op "w" | hex of the bytes written during the Handle call | true/false
+//	  answer: per op "w" | hex of the bytes written during the Handle call | true/false | "l"
 //
 //	C19.conc <G> <K> <R> <oracle>
 //	    G goroutines, each with its own derived handler, K+1 records each (record 0 is one shared
@@ -65,14 +69,15 @@ type c19Rec struct {
 }
 
 type c19Op struct {
-	kind byte // 'W', 'H', 'E'
-	a    int  // parent / node
+	kind byte // 'W', 'H', 'E', 'L'
+	a    int  // parent / node (0 for 'L')
 	b    int  // rid / level
 	ids  []int
 }
 
 type c19Case struct {
 	lvl    int
+	dyn    bool // HandlerOptions.Level is a *slog.LevelVar (initialised to lvl), not the constant lvl
 	attrs  []c19Attr
 	recs   []c19Rec
 	script []c19Op
@@ -104,7 +109,11 @@ func c19Parse(line string) (c *c19Case) {
 	if len(f) < 5 || f[0] != "C19.tree" {
 		panic("bad C19.tree case")
 	}
-	c = &c19Case{lvl: atoi(f[1])}
+	if strings.HasPrefix(f[1], "v") {
+		c = &c19Case{lvl: atoi(f[1][1:]), dyn: true}
+	} else {
+		c = &c19Case{lvl: atoi(f[1])}
+	}
 	if f[2] != "-" {
 		for _, a := range strings.Split(f[2], ",") {
 			p := strings.SplitN(a, ":", 3)
@@ -127,6 +136,10 @@ func c19Parse(line string) (c *c19Case) {
 	if f[4] != "-" {
 		for _, o := range strings.Split(f[4], ",") {
 			p := strings.SplitN(o[1:], ":", 2)
+			if o[0] == 'L' {
+				c.script = append(c.script, c19Op{kind: 'L', b: atoi(p[0])})
+				continue
+			}
 			op := c19Op{kind: o[0], a: atoi(p[0])}
 			switch o[0] {
 			case 'W':
@@ -306,6 +319,8 @@ func (c *c19Case) line() string {
 			}
 		case 'E':
 			ops = append(ops, fmt.Sprintf("E%d:%d", op.a, op.b))
+		case 'L':
+			ops = append(ops, fmt.Sprintf("L%d", op.b))
 		}
 	}
 	j := func(xs []string) string {
@@ -314,7 +329,11 @@ func (c *c19Case) line() string {
 		}
 		return strings.Join(xs, ",")
 	}
-	return fmt.Sprintf("C19.tree %d %s %s %s %s", c.lvl, j(as), j(rs), j(ops), j(orc))
+	lvl := strconv.Itoa(c.lvl)
+	if c.dyn {
+		lvl = "v" + lvl
+	}
+	return fmt.Sprintf("C19.tree %s %s %s %s %s", lvl, j(as), j(rs), j(ops), j(orc))
 }
 
 // c19Writer records what the handler writes; when yield is set it takes the bytes in two
@@ -396,7 +415,20 @@ func evalC19Tree(line string) Result {
 	c := c19Parse(line)
 	ctx := context.Background()
 	w := &c19Writer{}
-	root := slogutil.NewJSONHybridHandler(w, &slog.HandlerOptions{Level: slog.Level(c.lvl)})
+	// the case's LevelVar; only a v<lvl> case hands it to the handler.  "The configured level"
+	// of a tree made from a LevelVar has two readings: the value at construction (c.lvl; what
+	// NewJSONHybridHandler does, it calls opts.Level.Level() once) and the current value (cur;
+	// what the handlers of log/slog do).  The oracle accepts a script if all its Enabled answers
+	// fit one of the two; what no reading allows is a tree whose handlers answer differently.
+	levelVar := &slog.LevelVar{}
+	var leveler slog.Leveler = slog.Level(c.lvl)
+	if c.dyn {
+		levelVar.Set(slog.Level(c.lvl))
+		leveler = levelVar
+	}
+	cur, sets, dynEnabled := c.lvl, 0, false
+	notFrozen, notCurrent := "", "" // the first Enabled call that does not fit the reading
+	root := slogutil.NewJSONHybridHandler(w, &slog.HandlerOptions{Level: leveler})
 	nodes := []slog.Handler{root}
 	paths := [][]int{nil}
 	recs := make([]slog.Record, len(c.recs))
@@ -481,10 +513,33 @@ func evalC19Tree(line string) Result {
 			}
 			got := nodes[op.a].Enabled(ctx, slog.Level(op.b))
 			outs = append(outs, strconv.FormatBool(got))
-			if got != (op.b >= c.lvl) {
-				setDirect(fail("enabled", "Enabled(%d) = %v on a handler of level %d", op.b, got, c.lvl))
+			if !c.dyn {
+				if got != (op.b >= c.lvl) {
+					setDirect(fail("enabled", "Enabled(%d) = %v on a handler of level %d", op.b, got, c.lvl))
+				}
+				continue
 			}
+			if sets > 0 {
+				dynEnabled = true
+			}
+			if got != (op.b >= c.lvl) && notFrozen == "" {
+				notFrozen = fmt.Sprintf("Enabled(%d) = %v on node %d (depth %d)", op.b, got, op.a, depthOf[op.a])
+			}
+			if got != (op.b >= cur) && notCurrent == "" {
+				notCurrent = fmt.Sprintf("Enabled(%d) = %v on node %d (depth %d) when the variable held %d", op.b, got, op.a, depthOf[op.a], cur)
+			}
+		case 'L':
+			levelVar.Set(slog.Level(op.b))
+			sets++
+			if c.dyn {
+				cur = op.b
+			}
+			outs = append(outs, "l")
 		}
+	}
+	if notFrozen != "" && notCurrent != "" {
+		setDirect(fail("enabled-level", "a tree made from a *slog.LevelVar holding %d answers for neither the level at construction (%s) nor the current level (%s)",
+			c.lvl, notFrozen, notCurrent))
 	}
 	var cls []string
 	if siblings {
@@ -501,6 +556,9 @@ func evalC19Tree(line string) Result {
 	}
 	if nasty {
 		cls = append(cls, "escapes")
+	}
+	if dynEnabled {
+		cls = append(cls, "levelvar")
 	}
 	class := "trivial"
 	if len(cls) > 0 && len(handled) > 0 {
@@ -850,7 +908,12 @@ func c19Chunk(rng *rand.Rand, ids []int) (chunks [][]int) {
 
 func c19GenTree(rng *rand.Rand) string {
 	levels := []int{-8, -4, -1, 0, 1, 3, 4, 7, 8, 9, 12}
-	c := &c19Case{lvl: pick(rng, levels...)}
+	// what the LevelVar is set to: the named levels, their neighbours and the ends of the range
+	setLevels := []int{-8, -5, -4, -3, -1, 0, 1, 3, 4, 5, 7, 8, 9, 12}
+	// about half of the trees hang off a *slog.LevelVar; cur is the level the tree is configured
+	// with at this point of the script, prev the one before the last Set
+	c := &c19Case{lvl: pick(rng, levels...), dyn: rng.IntN(2) == 0}
+	cur, prev := c.lvl, c.lvl
 	// records
 	nrec := 1 + rng.IntN(3)
 	for i := 0; i < nrec; i++ {
@@ -871,9 +934,73 @@ func c19GenTree(rng *rand.Rand) string {
 	// has a child, and the older child is used again afterwards
 	nodes := 1
 	depth := []int{0}
+	// Enabled at a level that tells the current level from the one at construction (those from
+	// the smaller of the two up to the larger less one do) or from the one before the last Set,
+	// and at the neighbours of the current level
+	enabledAt := func(n int) {
+		lo, hi := min(cur, c.lvl), max(cur, c.lvl)
+		l := pick(rng, cur, cur-1, cur+1, prev, prev-1)
+		if lo < hi && rng.IntN(3) != 0 {
+			l = pick(rng, lo, hi-1, lo+rng.IntN(hi-lo))
+		}
+		c.script = append(c.script, c19Op{kind: 'E', a: n, b: l})
+	}
+	// a node of the given depth (at least that depth when min is set), -1 if there is none
+	nodeAt := func(d int, min bool) int {
+		var ns []int
+		for n, dn := range depth {
+			if dn == d || (min && dn > d) {
+				ns = append(ns, n)
+			}
+		}
+		if len(ns) == 0 {
+			return -1
+		}
+		return pick(rng, ns...)
+	}
+	// Enabled on the root and on derived handlers (a grandchild or deeper, a child) right before
+	// a Set, then the Set, then Enabled on the root, on a child and on a grandchild again (all
+	// derived before the Set), and now and then on a handler derived after it
+	setLevel := func() {
+		if rng.IntN(2) == 0 {
+			for _, n := range []int{0, nodeAt(1, true)} {
+				if n >= 0 {
+					enabledAt(n)
+				}
+			}
+		}
+		l := pick(rng, setLevels...)
+		c.script = append(c.script, c19Op{kind: 'L', b: l})
+		if c.dyn {
+			prev, cur = cur, l
+		}
+		derived := false
+		for _, n := range []int{nodeAt(2, true), nodeAt(1, false)} {
+			if n >= 0 && (rng.IntN(3) != 0 || !derived) {
+				enabledAt(n)
+				derived = true
+				if rng.IntN(3) == 0 {
+					enabledAt(n)
+				}
+			}
+		}
+		enabledAt(0)
+		if rng.IntN(3) == 0 && nodes < 12 {
+			p := rng.IntN(nodes)
+			if depth[p] >= 5 {
+				p = 0
+			}
+			c.script = append(c.script, c19Op{kind: 'W', a: p, ids: c19GenIDs(rng, c, rng.IntN(3))})
+			depth = append(depth, depth[p]+1)
+			nodes++
+			enabledAt(nodes - 1)
+		}
+	}
 	steps := 3 + rng.IntN(12)
 	for s := 0; s < steps; s++ {
-		switch x := rng.IntN(10); {
+		switch x := rng.IntN(12); {
+		case x >= 10 && (c.dyn || rng.IntN(4) == 0):
+			setLevel()
 		case x < 4 && nodes < 12:
 			p := rng.IntN(nodes)
 			if depth[p] >= 5 {
@@ -902,7 +1029,16 @@ func c19GenTree(rng *rand.Rand) string {
 				c.script = append(c.script, c19Op{kind: 'H', a: n, b: last.b})
 			}
 		default:
-			c.script = append(c.script, c19Op{kind: 'E', a: rng.IntN(nodes), b: c.lvl + pick(rng, -1, 0, 1, -100, 100, rng.IntN(9)-4)})
+			c.script = append(c.script, c19Op{kind: 'E', a: rng.IntN(nodes), b: pick(rng, cur, cur, c.lvl) + pick(rng, -1, 0, 1, -100, 100, rng.IntN(9)-4)})
+		}
+	}
+	// a last Set with every node asked afterwards
+	if c.dyn && rng.IntN(3) == 0 {
+		l := pick(rng, setLevels...)
+		c.script = append(c.script, c19Op{kind: 'L', b: l})
+		prev, cur = cur, l
+		for n := 0; n < nodes; n++ {
+			enabledAt(n)
 		}
 	}
 	// finally every node handles record 0 once more (after all derivations)
@@ -952,7 +1088,7 @@ func genC19(rng *rand.Rand, tier string) (cases []string) {
 // --- shrinker ------------------------------------------------------------------------
 
 func (c *c19Case) clone() *c19Case {
-	d := &c19Case{lvl: c.lvl}
+	d := &c19Case{lvl: c.lvl, dyn: c.dyn}
 	d.attrs = append(d.attrs, c.attrs...)
 	for _, r := range c.recs {
 		r2 := r
@@ -1182,15 +1318,57 @@ func candsC19Tree(c *c19Case) (res []string) {
 			add(c.keepOps(func(_ int, o c19Op) bool { return o.kind == 'H' && o.a == n && o.b == r }))
 		}
 	}
-	// every derivation, but a single Handle / Enabled call
+	// every derivation, but a single Handle / Enabled call (an Enabled call together with the
+	// Set calls before it, then with the last of them only)
 	for i := len(c.script) - 1; i >= 0; i-- {
-		if c.script[i].kind != 'W' {
+		switch c.script[i].kind {
+		case 'H':
 			add(c.keepOps(func(j int, o c19Op) bool { return o.kind == 'W' || j == i }))
+		case 'E':
+			last := -1
+			for j := 0; j < i; j++ {
+				if c.script[j].kind == 'L' {
+					last = j
+				}
+			}
+			add(c.keepOps(func(j int, o c19Op) bool { return o.kind == 'W' || j == i || (o.kind == 'L' && j < i) }))
+			add(c.keepOps(func(j int, o c19Op) bool { return o.kind == 'W' || j == i || j == last }))
 		}
 	}
-	// no Enabled calls; only the Enabled calls
-	add(c.keepOps(func(_ int, o c19Op) bool { return o.kind != 'E' }))
-	add(c.keepOps(func(_ int, o c19Op) bool { return o.kind == 'E' }))
+	// two Enabled calls on different nodes, the last Set call before the later one and the
+	// derivations these need (handlers of one tree that answer differently)
+	{
+		var es []int
+		for i, o := range c.script {
+			if o.kind == 'E' {
+				es = append(es, i)
+			}
+		}
+		n := 0
+		for x := len(es) - 1; x >= 0 && n < 40; x-- {
+			for y := x - 1; y >= 0 && n < 40; y-- {
+				i1, i2 := es[y], es[x]
+				if c.script[i1].a == c.script[i2].a {
+					continue
+				}
+				last := -1
+				for j := 0; j < i2; j++ {
+					if c.script[j].kind == 'L' {
+						last = j
+					}
+				}
+				if last < 0 {
+					continue
+				}
+				add(c.keepOps(func(j int, _ c19Op) bool { return j == i1 || j == i2 || j == last }))
+				n++
+			}
+		}
+	}
+	// no Enabled and Set calls; only the Enabled and Set calls; no Set calls
+	add(c.keepOps(func(_ int, o c19Op) bool { return o.kind != 'E' && o.kind != 'L' }))
+	add(c.keepOps(func(_ int, o c19Op) bool { return o.kind == 'E' || o.kind == 'L' }))
+	add(c.keepOps(func(_ int, o c19Op) bool { return o.kind != 'L' }))
 	// first / second half of the non-derivation ops
 	h := len(c.script) / 2
 	add(c.keepOps(func(i int, o c19Op) bool { return o.kind != 'W' && i < h }))
@@ -1198,7 +1376,7 @@ func candsC19Tree(c *c19Case) (res []string) {
 	// every attribute the same simple one
 	{
 		d := c.clone()
-		d.attrs = []c19Attr{{kind: "i", key: []byte("a"), val: "1"}}
+		d.attrs = []c19Attr{{kind: "i", key: []byte("a"), val: "0"}} // = attribute 0 of the next candidate
 		for i := range d.script {
 			for j := range d.script[i].ids {
 				d.script[i].ids[j] = 0
@@ -1245,6 +1423,22 @@ func candsC19Tree(c *c19Case) (res []string) {
 	if len(c.script) > 8 {
 		// the fine-grained candidates come once the script is short
 		return res
+	}
+	// a Handle / Enabled call on the parent of its node
+	{
+		parent := []int{0}
+		for _, op := range c.script {
+			if op.kind == 'W' {
+				parent = append(parent, op.a)
+			}
+		}
+		for i, op := range c.script {
+			if (op.kind == 'H' || op.kind == 'E') && op.a > 0 && op.a < len(parent) {
+				d := c.clone()
+				d.script[i].a = parent[op.a]
+				add(d)
+			}
+		}
 	}
 	for i, op := range c.script {
 		if op.kind == 'W' {
@@ -1295,6 +1489,19 @@ func candsC19Tree(c *c19Case) (res []string) {
 		d := c.clone()
 		d.lvl = 0
 		add(d)
+	}
+	if c.dyn {
+		// a constant level instead of the LevelVar
+		d := c.clone()
+		d.dyn = false
+		add(d)
+	}
+	for i, op := range c.script {
+		if op.kind == 'L' && op.b != 0 {
+			d := c.clone()
+			d.script[i].b = 0
+			add(d)
+		}
 	}
 	return res
 }
